@@ -68,7 +68,7 @@ def sanitise(name):
     return out
 
 
-def check(run, P):
+def _check_main(run, P):
     run.rule("C13.charset", "make_identifier_from_name keeps a constant subset of "
              "[A-Za-z0-9_] by membership test, strips leading underscores and "
              "never returns the empty string", minimum=4)
@@ -653,3 +653,9 @@ def _has_length_bound(f: Func):
                                               for x in ast.walk(n)):
             return True
     return False
+
+
+def check(run, P):
+    _check_main(run, P)
+    from . import generic
+    generic.lints(run, P, "C13")
